@@ -149,7 +149,7 @@ def run(ctx):
     record_protocol(ctx, 'C09.R3')
     # ---------------------------------------------------------------- R4 unit and refusal
     sc = targets.scan(ctx, 'Recipe.get_substance_used')
-    uscan.report_sinks(ctx, lambda cat: 'C09.R4' if cat in ('qstr', 'convert-from-unit', 'storage-label', 'add-units',
+    uscan.report_sinks(ctx, lambda cat: 'C09.R4' if cat in ('qstr', 'truncating-division', 'convert-from-unit', 'storage-label', 'add-units',
                                                             'sum-mix', 'compare-units', 'storage-compare') else None, sc)
     for ex in rets:
         def nonneg(c):
